@@ -330,15 +330,19 @@ def decode_cif_atoms(text: str) -> List[dict]:
                 return ""
 
             ch = g("pdbx_formal_charge")
+            # author identity only when chain, number and residue name are all given (else label identity)
+            has_auth = bool(g("auth_asym_id")) and bool(g("auth_seq_id")) and bool(g("auth_comp_id"))
             out.append({
                 "record": g("group_PDB") or "ATOM", "serial": int(g("id") or 0), "name": g("auth_atom_id", "label_atom_id"),
                 "altloc": g("label_alt_id"), "resname": g("auth_comp_id", "label_comp_id"),
-                "chain": g("auth_asym_id", "label_asym_id"), "resseq": int(g("auth_seq_id", "label_seq_id") or 0),
+                "chain": g("auth_asym_id") if has_auth else g("label_asym_id"),
+                "resseq": int((g("auth_seq_id") if has_auth else g("label_seq_id")) or 0),
                 "icode": g("pdbx_PDB_ins_code"), "x": float(g("Cartn_x")), "y": float(g("Cartn_y")), "z": float(g("Cartn_z")),
                 "occ": float(g("occupancy")) if g("occupancy") else None, "bfac": float(g("B_iso_or_equiv")) if g("B_iso_or_equiv") else None,
                 "element": g("type_symbol"), "charge": int(ch) if re.fullmatch(r"[+-]?\d+", ch or "") else (0 if not ch else None),
                 "model": int(g("pdbx_PDB_model_num") or 1),
                 "_label": (g("label_asym_id"), g("label_seq_id"), g("label_comp_id")),
+                "_has_auth": has_auth,
                 "_raw_charge": d.get("pdbx_formal_charge"),
             })
         return out
